@@ -20,31 +20,38 @@ def locally_normalize(ctx):
     T = ctx.D.term
     strings = [tuple(x) for x in P["strings"]]
     piv = []
-    ok, Z = ctx.ref("oracle treesums", O.treesums, orules, sk.V, num, piv)
+    alg = []
+    ok, Z = ctx.ref("oracle treesums", O.treesums, orules, sk.V, num, piv, algebraic=alg)
     if not ok:
         return
+    nonlinear = bool(alg)
+    tol = 1e-6 if (nonlinear and not ctx.symbolic) else 0
+    alg = [c for c in alg if c is not True]
     ZS = Z.get(sk.S, num.zero)
     if O.is_zero(ZS):
         ctx.oob("total weight zero", "the property assumes finite positive total weight")
         return
-    with stubs.agenda_summary(ctx, when=lambda g: not stubs.finite_system(g)):
+    with stubs.agenda_summary(ctx, when=lambda g: not stubs.finite_system(g), algebraic=True):
         g = make_cfg(ctx, sk, ws)
         okc, ln = ctx.call("locally_normalize", LN, g, sig="locally_normalize:exception")
         if not okc:
             return
-        hyp = [ctx.gt0(p) for p in piv]
+        # non-linear recursion: the total weights are unknowns constrained by their own fixed-point equations
+        hyp = [ctx.gt0(p) for p in piv] + list(alg)
         # (1) weights of the rules sharing a left-hand side sum to one
         heads = {}
         for r in ln.rules:
             heads[r.head] = num.add(heads.get(r.head, num.zero), T(r.w))
         for h, tot in heads.items():
-            ctx.eq_terms(f"rules of {h} sum to one", tot, num.one, hyps=hyp, sig=f"lhs-sum:{P['shape']}:{h}")
+            ctx.eq_terms(f"rules of {h} sum to one", tot, num.one, hyps=hyp, sig=f"lhs-sum:{P['shape']}:{h}", tol=tol)
         # heads with positive total weight keep their rules
         gen = O.generating_set(orules, sk.V)
         lost = sorted(X for X in {h for _, h, _ in orules if h in gen and not O.is_zero(Z.get(h, num.zero))} if X not in heads)
         ctx.check("every nonterminal with positive total weight keeps its rules", not lost, detail=str(lost), sig="lhs-lost")
         # (2) total weight one
-        okt, ts = ctx.call("locally_normalize(..).treesum()", ln.treesum, sig="treesum:exception")
+        okt, ts = (False, None) if nonlinear else ctx.call("locally_normalize(..).treesum()", ln.treesum, sig="treesum:exception")
+        if nonlinear:
+            ctx.oob("total weight one", "needs leastness of the normalised grammar's own non-linear fixed point, which the equations alone do not give")
         if okt:
             ctx.eq("total weight of the normalised grammar is one", ts, num.one, pivots=piv, sig=f"total-one:{P['shape']}")
         # (3) proportionality:  ln(x) * Z = cfg(x)   (normalised grammar evaluated by the oracle)
@@ -54,7 +61,7 @@ def locally_normalize(ctx):
             ok1, a = ctx.ref(f"oracle ln {x}", O.string_weight, lrules, sk.V, ln.S, x, num, p1)
             ok2, b = ctx.ref(f"oracle cfg {x}", O.string_weight, orules, sk.V, sk.S, x, num, p2)
             if ok1 and ok2:
-                ctx.eq_terms(f"ln({x}) * Z = cfg({x})", num.mul(a, ZS), b, hyps=hyp + [ctx.gt0(p) for p in p1 + p2], sig=f"proportional:{P['shape']}:{''.join(x)}")
+                ctx.eq_terms(f"ln({x}) * Z = cfg({x})", num.mul(a, ZS), b, hyps=hyp + [ctx.gt0(p) for p in p1 + p2], sig=f"proportional:{P['shape']}:{''.join(x)}", tol=tol)
 
 
 @case("C20", "add_EOS", domain="SW")
@@ -102,7 +109,7 @@ def jobs(tier, seed):
     out = []
     quick = tier == "quick"
     L = 3 if quick else 4
-    for sh in (["G-FIN", "G-LIN", "G-PAL", "G-DUP", "G-REP"] if quick else ["G-FIN", "G-LIN", "G-PAL", "G-DUP", "G-REP", "G-NU", "G-LR", "G-S1", "G-DEAD", "G-NULL3", "G-MUT", "G-DUP2"]):
+    for sh in (["G-FIN", "G-LIN", "G-PAL", "G-DUP", "G-REP", "G-CAT", "G-S2"] if quick else ["G-FIN", "G-LIN", "G-PAL", "G-DUP", "G-REP", "G-NU", "G-LR", "G-S1", "G-DEAD", "G-NULL3", "G-MUT", "G-DUP2", "G-CAT", "G-S2", "G-TRI"]):
         sk = grammar(sh)
         strings = [list(x) for x in all_strings(sk.V, L)][:15 if quick else 31]
         bits = [0, 1] if sk.K >= 7 else ([0] if sk.K >= 5 else [])
@@ -128,6 +135,6 @@ INFO = dict(
     explanation="Real locally_normalize/add_EOS on symbolic weights; z3 proves per-head normalisation, total weight one and proportionality for all weights.",
     bounds=dict(quick=dict(strings="<= 3 (15)", skeletons=["G-FIN", "G-LIN", "G-PAL", "G-DUP"]), thorough=dict(strings="<= 4 (31)", skeletons=10)),
     stubs=["agenda summary on recursive systems"],
-    outside=["non-linear recursion", "IEEE rounding", "agenda updates within (0, 1e-12]"],
+    outside=["for NON-LINEAR recursion (total weights are unknowns constrained by their fixed-point equations): 'total weight of the normalised grammar is one' is not decided (needs leastness), per-head normalisation and proportionality are", "IEEE rounding", "agenda updates within (0, 1e-12]"],
     assumptions=["weights >= 0", "finite positive total weight (pivots > 0)"],
 )
